@@ -324,66 +324,50 @@ static std::vector<Fail> structural(const UDecl& d, const std::string& text)
         if (!cur.empty())
             lines.push_back(cur);
     }
-    // ---- synopsis: from line 0 up to the first empty line
+    // ---- synopsis: from line 0 up to the first empty line.  Only what the statement says is demanded: every declared
+    // item is mentioned (by its long spelling, or - for a toggle with a short name - by its letter in a group of
+    // short toggles).  The concrete layout (brackets, separators, order) is not prescribed.
     size_t ln = 0;
     std::string synopsis;
     while (ln < lines.size() && !lines[ln].empty())
         synopsis += lines[ln++] + " ";
     std::string syn = squeeze(synopsis);
-    std::string want_start = "usage: " + d.app;
-    if (syn.compare(0, want_start.size(), want_start) != 0)
-        f.push_back({ "synopsis-start", "synopsis does not start with '" + want_start + "': " + syn.substr(0, 60) });
-    std::string short_toggles;
-    {
-        auto b = syn.find("[-");
-        // the bundle of short toggle letters is the first "[-xyz]" whose second char is not '-'
-        while (b != std::string::npos && b + 2 < syn.size() && syn[b + 2] == '-')
-            b = syn.find("[-", b + 1);
-        if (b != std::string::npos)
+    if (syn.find(d.app) == std::string::npos)
+        f.push_back({ "synopsis-start", "synopsis does not name the application '" + d.app + "': " + syn.substr(0, 60) });
+    auto has_token = [&](const std::string& hay, const std::string& tok) {
+        // tok occurs and is not the prefix of a longer name
+        for (size_t p = hay.find(tok); p != std::string::npos; p = hay.find(tok, p + 1))
         {
-            auto e = syn.find(']', b);
-            std::string inner = syn.substr(b + 2, e == std::string::npos ? std::string::npos : e - b - 2);
-            if (inner.find(' ') == std::string::npos)
-                short_toggles = inner;
+            size_t e = p + tok.size();
+            if (e >= hay.size() || !(isalnum(static_cast<unsigned char>(hay[e])) || hay[e] == '-' || hay[e] == '_'))
+                return true;
         }
-    }
+        return false;
+    };
+    auto in_short_group = [&](const std::string& letter) {
+        // some "[-xyz]" / "-xyz" group of letters (no second dash) contains the letter
+        for (size_t p = syn.find('-'); p != std::string::npos; p = syn.find('-', p + 1))
+        {
+            if (p + 1 >= syn.size() || syn[p + 1] == '-' || (p > 0 && (syn[p - 1] == '-' || isalnum(static_cast<unsigned char>(syn[p - 1])))))
+                continue;
+            size_t e = p + 1;
+            while (e < syn.size() && isalnum(static_cast<unsigned char>(syn[e])))
+                e++;
+            if (syn.substr(p + 1, e - p - 1).find(letter) != std::string::npos)
+                return true;
+        }
+        return false;
+    };
     for (auto& i : d.items)
     {
-        std::string mv = i.metavar.empty() ? "ARG" : i.metavar;
-        bool ok = true;
-        std::string what;
-        if (i.kind == 't')
-        {
-            if (!i.sh.empty())
-            {
-                ok = short_toggles.find(i.sh) != std::string::npos;
-                what = "letter " + i.sh + " in the short toggle list [-" + short_toggles + "]";
-                if (i.rev)
-                {
-                    ok = ok && syn.find("[--[no-]" + i.name + "]") != std::string::npos;
-                    what += " and [--[no-]" + i.name + "]";
-                }
-            }
-            else
-            {
-                std::string w = i.rev ? "[--[no-]" + i.name + "]" : "[--" + i.name + "]";
-                ok = syn.find(w) != std::string::npos;
-                what = w;
-            }
-        }
-        else
-        {
-            std::string w = "[";
-            if (!i.sh.empty())
-                w += "-" + i.sh + " <" + mv + "> | ";
-            w += "--" + i.name + " <" + mv + ">]";
-            ok = syn.find(w) != std::string::npos;
-            what = w;
-        }
+        bool ok = has_token(syn, "--" + i.name) || (i.kind == 't' && i.rev && has_token(syn, "--[no-]" + i.name));
+        if (!ok && i.kind == 't' && !i.sh.empty())
+            ok = in_short_group(i.sh);
         if (!ok)
-            f.push_back({ "synopsis-misses-item", "synopsis lacks " + what + " : " + syn });
+            f.push_back({ "synopsis-misses-item", "synopsis does not mention " + std::string(i.kind == 't' ? "toggle " : "option ") + i.name + " : " + syn });
     }
-    // ---- option section: group headers and entries
+    // ---- option section: group headers and entries (layout tolerant: an entry starts on an indented line whose first
+    // token begins with '-', its continuation lines are indented lines that do not)
     std::vector<std::string> group_order;
     auto note_group = [&](const std::string& g) {
         for (auto& x : group_order)
@@ -403,25 +387,30 @@ static std::vector<Fail> structural(const UDecl& d, const std::string& text)
     std::vector<Entry> entries;
     std::vector<std::string> seen_groups;
     std::string cur_group = "<none>";
+    size_t cont_indent = 0; // observed indentation of continuation lines (0 = none seen)
     for (; ln < lines.size(); ln++)
     {
         auto& l = lines[ln];
         if (l.empty())
             continue;
-        if (l[0] != ' ' && l.back() == ':' && l.find(' ') == std::string::npos)
+        size_t ind = l.find_first_not_of(' ');
+        if (ind == std::string::npos)
+            continue;
+        if (ind == 0 && l.back() == ':' && l.find(' ') == std::string::npos)
         {
             cur_group = l.substr(0, l.size() - 1);
             seen_groups.push_back(cur_group);
             continue;
         }
-        if (l.compare(0, 3, "  -") == 0)
+        if (ind > 0 && l[ind] == '-')
         {
             entries.push_back({ cur_group, l, l });
             continue;
         }
-        if (l.compare(0, 8, "        ") == 0 && !entries.empty())
+        if (ind > 0 && !entries.empty())
         {
             entries.back().text += "\n" + l;
+            cont_indent = cont_indent ? std::min(cont_indent, ind) : ind;
             continue;
         }
         // about text / group description lines are free text
@@ -453,18 +442,60 @@ static std::vector<Fail> structural(const UDecl& d, const std::string& text)
     {
         auto& e = entries[k];
         auto& i = *want_entries[k];
-        std::string head = expected_head(i);
         std::string wg = i.group.empty() ? "arguments" : i.group;
         if (e.group != wg)
             f.push_back({ "entry-in-wrong-group", "entry '" + squeeze(e.head_line).substr(0, 40) + "' under '" + e.group + "' expected '" + wg + "'" });
-        bool head_ok = e.head_line.compare(0, head.size(), head) == 0 &&
-                       (e.head_line.size() == head.size() || e.head_line[head.size()] == ' ');
+        // tokens of the whole entry; commas directly behind a spelling belong to the layout
+        auto toks = words_of(e.text);
+        size_t t = 0;
+        auto strip = [](std::string w) {
+            while (!w.empty() && (w.back() == ',' || w.back() == ';'))
+                w.pop_back();
+            return w;
+        };
+        bool head_ok = true;
+        std::string why;
+        if (!i.sh.empty())
+        {
+            if (t < toks.size() && strip(toks[t]) == "-" + i.sh)
+                t++;
+            else
+            {
+                head_ok = false;
+                why = "short spelling -" + i.sh + " missing";
+            }
+        }
+        if (head_ok)
+        {
+            std::string lg = t < toks.size() ? strip(toks[t]) : "";
+            bool long_ok = lg == "--" + i.name || (i.kind == 't' && i.rev && lg == "--[no-]" + i.name);
+            if (i.kind == 't' && i.rev && lg == "--" + i.name)
+                long_ok = false; // a reversible toggle has to show that it can be negated
+            if (long_ok)
+                t++;
+            else
+            {
+                head_ok = false;
+                why = "long spelling of '" + i.name + "' missing or not in this position (found '" + lg + "')";
+            }
+        }
+        if (head_ok && i.kind != 't')
+        {
+            std::string mv = i.metavar.empty() ? "ARG" : i.metavar;
+            if (t < toks.size() && toks[t] == mv)
+                t++;
+            else
+            {
+                head_ok = false;
+                why = "value placeholder " + mv + " missing";
+            }
+        }
         if (!head_ok)
         {
-            f.push_back({ "entry-order-or-spelling", "entry #" + std::to_string(k) + " is '" + e.head_line.substr(0, 70) + "' expected head '" + head + "'" });
+            f.push_back({ "entry-order-or-spelling", "entry #" + std::to_string(k) + " is '" + e.head_line.substr(0, 70) + "' but item '" + i.name + "' is expected here: " + why });
             continue;
         }
-        auto got = words_of(e.text.substr(head.size()));
+        std::vector<std::string> got(toks.begin() + t, toks.end());
         auto want = expected_words(i);
         if (got != want)
         {
@@ -473,7 +504,7 @@ static std::vector<Fail> structural(const UDecl& d, const std::string& text)
             if (i.kind == 't' && !i.rev && got.size() == want.size() + 2 && got[want.size()] == "(default:")
                 lenient = std::equal(want.begin(), want.end(), got.begin());
             if (!lenient)
-                f.push_back({ "description-words", "entry '" + squeeze(head) + "' right column words " + mc::jlist(got) + " expected " + mc::jlist(want) });
+                f.push_back({ "description-words", "entry for '" + i.name + "' right column words " + mc::jlist(got) + " expected " + mc::jlist(want) });
         }
     }
     // ---- line width: only an unbreakable word (one that cannot fit the column, length + 1 > column width) may reach
@@ -487,7 +518,15 @@ static std::vector<Fail> structural(const UDecl& d, const std::string& text)
         if (lines[k].size() <= 80)
             continue;
         bool in_synopsis = k < syn_end;
-        size_t width = 80 - (in_synopsis ? std::min<size_t>(syn_indent, 79) : 40);
+        // column at which wrapped lines start: observed where possible, the documented layout otherwise
+        size_t indent = in_synopsis ? std::min<size_t>(syn_indent, 79) : (cont_indent ? std::min<size_t>(cont_indent, 79) : 40);
+        if (in_synopsis && syn_end > 1)
+        {
+            size_t ind2 = lines[1].find_first_not_of(' ');
+            if (ind2 != std::string::npos && ind2 > 0)
+                indent = std::min<size_t>(ind2, 79);
+        }
+        size_t width = 80 - indent;
         // units: blank separated; in the synopsis "<METAVAR>..." belongs to the token in front of it (a tab in the source)
         struct Unit
         {
